@@ -58,7 +58,7 @@ type workload struct {
 
 type kase struct {
 	ID       string         `json:"id"`
-	Op       string         `json:"op"` // plans | deploy | realloc
+	Op       string         `json:"op"` // plans | deploy | realloc | capacity
 	Base     int            `json:"base"`
 	MaxShare int            `json:"maxShare"`
 	Node     node           `json:"node"`
@@ -201,7 +201,7 @@ func runOnce(t *testing.T, k *kase, deadline time.Duration) {
 				out = append(out, map[string]any{"numa": pl.NUMANode, "map": map[string]int(pl.CPUMap)})
 			}
 			res = map[string]any{"plans": out}
-		case "deploy", "realloc":
+		case "deploy", "realloc", "capacity":
 			info := k.Node.info()
 			if _, err := p.SetNodeResourceInfo(ctx, "n", rawRes(info.Capacity), rawRes(info.Usage)); err != nil {
 				res = map[string]any{"seterr": errClass(err)}
@@ -209,6 +209,19 @@ func runOnce(t *testing.T, k *kase, deadline time.Duration) {
 			}
 			rq := plugintypes.WorkloadResourceRequest{"cpu-bind": k.Req.Bind, "keep-cpu-bind": k.Req.Keep, "cpu-request": cores(k.Req.CPU),
 				"cpu-limit": cores(k.Req.CPULim), "memory-request": k.Req.Mem, "memory-limit": k.Req.MemLim}
+			if k.Op == "capacity" {
+				resp, err := p.GetNodesDeployCapacity(ctx, []string{"n"}, rq)
+				if err != nil {
+					res = map[string]any{"err": errClass(err)}
+					return
+				}
+				c := 0 // nodes with capacity <= 0 are left out of the map
+				if e, ok := resp.NodeDeployCapacityMap["n"]; ok && e != nil {
+					c = e.Capacity
+				}
+				res = map[string]any{"cap": c, "total": resp.Total}
+				return
+			}
 			if k.Op == "deploy" {
 				resp, err := p.CalculateDeploy(ctx, "n", k.Count, rq)
 				if err != nil {
@@ -519,6 +532,8 @@ func corpus() []*kase {
 		// capacity 4096, used 6144, request 1.5 cpu / 1024 mem -> cpuPlans[:-2] without the clamp
 		mk("plans", 100, -1, node{Cap: two, Mem: 4096, MemUse: 6144}, request{Bind: true, CPU: 1500, Mem: 1024}, 1, nil),
 		mk("deploy", 100, -1, node{Cap: two, Mem: 4096, MemUse: 6144}, request{Bind: true, CPU: 1500, CPULim: 1500, Mem: 1024, MemLim: 1024}, 1, nil),
+		mk("capacity", 100, -1, node{Cap: two, Mem: 4096, MemUse: 6144}, request{Bind: true, CPU: 1500, CPULim: 1500, Mem: 1024, MemLim: 1024}, 1, nil),
+		mk("capacity", 100, -1, node{Cap: two, Mem: 4096, MemUse: 0}, request{Bind: true, CPU: 1, CPULim: 1}, 1, nil),
 		mk("plans", 100, -1, node{Cap: map[string]int{"0": 100, "1": 100, "2": 100, "3": 100}, Mem: 4096, MemUse: 1024,
 			NUMA: map[string]string{"0": "n0", "1": "n0", "2": "n1", "3": "n1"}, NUMAMem: map[string]int64{"n0": 2048, "n1": 2048},
 			NUMAMemUse: map[string]int64{"n0": 5000, "n1": 0}}, request{Bind: true, CPU: 1000, Mem: 1024}, 1, nil),
@@ -606,7 +621,7 @@ func TestGen(t *testing.T) {
 		case "C05":
 			op = hx.Pick(r, "plans", "deploy", "realloc")
 		case "C06":
-			op = hx.Pick(r, "plans", "plans", "deploy", "realloc")
+			op = hx.Pick(r, "plans", "plans", "deploy", "realloc", "capacity")
 		default:
 			op = hx.Pick(r, "plans", "deploy", "realloc")
 		}
@@ -633,7 +648,7 @@ func TestGen(t *testing.T) {
 				}
 			}
 			emit(k)
-		case "deploy":
+		case "deploy", "capacity":
 			n := genNode(r, base, false)
 			cpu := genCPU(r, base)
 			rq := request{Bind: r.Chance(85), CPU: cpu, CPULim: cpu, Mem: genMem(r, &n)}
